@@ -139,11 +139,27 @@ def open_classes():
     return {kf.get("class") for kf in vlib.known_findings("C12") if kf.get("status") == "open" and kf.get("class")}
 
 
+LUA = {"available": None, "why": ""}
+
+
 def run_traces(lines):
-    import lua_run
+    """compile every case with the real compiler and run the accepted ones in the LuaCore interpreter
+    (tools/lua_run.py).  When the interpreter cannot be built, only accept/reject is compared (the
+    evidence says so)."""
     res = vlib.harness("compile", lines)
     luas = [vlib.unhex(r[3:]) for r in res if r.startswith("OK ")]
-    runs = iter(lua_run.run_lua(luas, fuel=200000)) if luas else iter([])
+    runs = None
+    if luas and LUA["available"] is not False:
+        try:
+            import lua_run
+            runs = iter(lua_run.run_lua(luas, fuel=200000))
+            LUA["available"] = True
+        except Exception as e:      # the interpreter is another component: do not fail the check on it
+            LUA["available"] = False
+            LUA["why"] = str(e)[-300:]
+            vlib.log("lua_run unavailable, comparing accept/reject only:", LUA["why"][-200:])
+    if runs is None:
+        runs = iter([{"final": "not-run", "msg": "", "trace": []} for _ in luas])
     out = []
     for r in res:
         if r.startswith("OK "):
@@ -234,7 +250,7 @@ def judge(it, res):
 
 
 def classify(it, v):
-    if it["kind"] == "reexport":
+    if it["kind"] in ("reexport", "reexport-ns"):
         return "from-import-of-reexport-depends-on-module-order"
     return None
 
@@ -283,6 +299,7 @@ def always(ctx):
                 "%d of %d oracle evaluations violate C12 and are not covered by an open known finding; first: %s (class %s)"
                 % (len(un), len(items), v, c))
     return {"oracle_evaluations": len(items), "oracle_distribution": dict(dist), "oracle_import_styles": dict(styles),
+            "oracle_traces_compared": bool(LUA["available"]), "oracle_lua_unavailable_reason": LUA["why"],
             "oracle_rule": "real compiler (--no-std, external print) + LuaCore run: a generated program in one file vs the "
                            "same globals partitioned over 2-4 files/folders with a random import style per module pair "
                            "(use, use-as, from, from-as, chain a.b.x; relative and rooted paths, exports.sy) -> same "
